@@ -20,3 +20,10 @@ check(
     "Hypothesis property-based testing of the CLI vs. reference decision list (fork-isolated real runs)",
     "DESIGN.md §3 C20",
 )
+check(
+    "C05", "exploration",
+    "Generated-input search at two levels: match_files on generated path and glob lists against an independently written glob/selection reference; and end-to-end runs on generated trees (test/build/venv/VCS dirs, non-Python files, symlinked files and directories inside and outside the target) with generated include/exclude lists in find-and-fix and SAST mode, where the set of files whose bytes changed is read from before/after snapshots of the whole sandbox and must equal trigger files ∩ reference selection, with nothing created, deleted or modified elsewhere. A calibration run that selects everything confirms the trigger files of every tree.",
+    "Trusted: my glob translation (fnmatch semantics: '*' crosses '/', whole relative path), the frozen default-exclude list, the single cheap trigger per mode (use-set-literal; sonar fix-assert-tuple). ':N' patterns are chosen so C13's line semantics do not interfere. Symlink loops / permission errors not generated.",
+    "Hypothesis property-based testing vs. reference glob model; snapshot differencing of real CLI runs",
+    "DESIGN.md §3 C05",
+)
